@@ -97,9 +97,17 @@ def run(chk):
     chk.coverage["sweep_runs_ending_in_violation"] = nviol
     for c, ci, cm, co, ev in res[:1]:
         chk.sample({"program": c.src, "limits": {"calls": c.calls, "depth": c.depth}, "impl": ci["outcome"]})
+    # (d) the whole exported library surface: an error value at argument position i is the result (leftmost),
+    #     and (e) a violation inside a library function that runs user callbacks is never swallowed
+    from . import libprobe
+    libprobe.error_propagation(chk, rng, 1 if quick else 6, prefix="c06")
+    libprobe.limit_transparency(chk, rng, 1 if quick else 4, prefix="c06",
+                                sweeps={"ud_calls": [1, 2, 4, 9], "search": [1, 3, 9]} if quick else None)
     return chk.finish(rule="generated core programs with typed error values injected at argument positions (unique messages), "
                            "targeted leftmost-error programs (every subset of erroring arguments of a k-ary user function, direct / via variable / via lambda, "
                            "inside tuple and array construction and under is_error), and call/depth limit sweeps 1..need+1 on handler-wrapped programs; "
+                           "plus, over the whole exported library surface (signature hook + typed value pool of C01): an error value at each argument position must be the result, "
+                           "and calls running user callbacks under call/search limits end in that violation or in the unlimited outcome; "
                            "non-trivial = program contains an injected error or runs under a limit; distinct by source text + limits")
 
 
